@@ -75,3 +75,24 @@ package htlcswitch
 //@   ensures  result == nil ==> amtOK(amt, p.MinHTLCOut, p.MaxHTLC) &&
 //@            expiryOK(timeout, heightNow, old(l.cfg.OutgoingCltvRejectDelta), old(l.cfg.MaxOutgoingCltvExpiry))
 //@   nowrap
+//@
+//@ func (m *memoryMailBox) pktMailCourier
+//@   props C08
+//@   loop * havoc
+//@   site call Front nth 0: assert arg(0) == m.repPkts
+//@   site call Front nth 1: assert arg(0) == m.addPkts
+//@   site call Front nth 2: assert arg(0) == m.repPkts
+//@   site call Front nth 3: assert arg(0) == m.addPkts
+//@   site call close nth 1: assert m.repHead == ret(Front, 0) && m.addHead == ret(Front, 1)
+//@   site call close nth 2: assert m.repHead == ret(Front, 2) && m.addHead == ret(Front, 3)
+//@
+//@ func (s *Switch) closeCircuit
+//@   props C08
+//@   requires pkt != nil
+//@   site call append: assert !pkt.hasSource && retn(CloseCircuit, 1) == ErrUnknownCircuit && pkt.destRef != nil
+//@   site call FailCircuit: assert pkt.hasSource
+//@   site call CloseCircuit: assert !pkt.hasSource
+//@   ensures result1 == nil && result0 != nil ==> (old(pkt.hasSource) && retn(FailCircuit, 1) == nil && result0 == retn(FailCircuit, 0)) ||
+//@           (!old(pkt.hasSource) && retn(CloseCircuit, 1) == nil && result0 == retn(CloseCircuit, 0))
+//@   ensures !old(pkt.hasSource) && retn(CloseCircuit, 1) == ErrCircuitClosing ==> result1 == ErrCircuitClosing && result0 == nil &&
+//@           len(s.pendingSettleFails) == old(len(s.pendingSettleFails))
